@@ -277,9 +277,16 @@ inline uint32_t lcg(uint32_t &s) {
 inline std::vector<bytes> derived_queries(const RefTable &m, const std::vector<bytes> &seps, const std::vector<bytes> &extra, uint32_t qseed) {
   std::set<bytes, BLess> q;
   q.insert(bytes());
-  for (auto &kv : m.e) q.insert(kv.first);
   uint32_t s = qseed | 1;
   size_t n = m.e.size();
+  if (n <= 3000) {
+    for (auto &kv : m.e) q.insert(kv.first);
+  } else {
+    // very large tables: every query costs a scan of the model, so query a sample of the keys (plus both ends)
+    q.insert(m.e.front().first);
+    q.insert(m.e.back().first);
+    for (int i = 0; i < 1500; i++) q.insert(m.e[lcg(s) % n].first);
+  }
   for (int i = 0; i < 24 && n; i++) {
     const bytes &k = m.e[lcg(s) % n].first;
     q.insert(key_pred(k));
